@@ -88,7 +88,7 @@ package rtp
 
 //@ func (h264dp *h264Depacketizer) writeFrame(rtpTimestamp uint32, frame *codec.Frame) (err error)
 //@   requires h264dp != nil && h264dp.meta != nil && h264dp.w != nil && frame != nil && len(frame.Payload) >= 1
-//@   modifies h264dp.meta.Sps, h264dp.meta.Pps, h264dp.meta.Width, h264dp.meta.Height, h264dp.meta.FixedFrameRate, h264dp.meta.FrameRate, h264dp.metaReady, h264dp.dtsStep, h264dp.nextDts, frame.Pts, frame.Dts, ghostSeq(h264dp.w, "emitted")
+//@   modifies h264dp.meta.Sps, h264dp.meta.Pps, h264dp.meta.Width, h264dp.meta.Height, h264dp.meta.FixedFrameRate, h264dp.meta.FrameRate, h264dp.metaReady, h264dp.dtsStep, h264dp.nextDts, h264dp.syncClock.extRTPTime, h264dp.syncClock.extOn, frame.Pts, frame.Dts, ghostSeq(h264dp.w, "emitted")
 //@   ensures len(ghostSeq(h264dp.w, "emitted")) == old(len(ghostSeq(h264dp.w, "emitted"))) || len(ghostSeq(h264dp.w, "emitted")) == old(len(ghostSeq(h264dp.w, "emitted"))) + 1
 //@   ensures len(ghostSeq(h264dp.w, "emitted")) == old(len(ghostSeq(h264dp.w, "emitted"))) + 1 ==> ghostSeq(h264dp.w, "emitted")[old(len(ghostSeq(h264dp.w, "emitted")))] == frame
 //@   ensures forall(i, 0, old(len(ghostSeq(h264dp.w, "emitted"))), ghostSeq(h264dp.w, "emitted")[i] == old(ghostSeq(h264dp.w, "emitted")[i]))
@@ -96,7 +96,7 @@ package rtp
 
 //@ func (h264dp *h264Depacketizer) depacketizeStapa(packet *Packet) (err error)
 //@   requires h264OK(h264dp) && videoPacket(packet) && payloadLen(packet) >= 3
-//@   modifies h264dp.meta.Sps, h264dp.meta.Pps, h264dp.meta.Width, h264dp.meta.Height, h264dp.meta.FixedFrameRate, h264dp.meta.FrameRate, h264dp.metaReady, h264dp.dtsStep, h264dp.nextDts, ghostSeq(h264dp.w, "emitted")
+//@   modifies h264dp.meta.Sps, h264dp.meta.Pps, h264dp.meta.Width, h264dp.meta.Height, h264dp.meta.FixedFrameRate, h264dp.meta.FrameRate, h264dp.metaReady, h264dp.dtsStep, h264dp.nextDts, h264dp.syncClock.extRTPTime, h264dp.syncClock.extOn, ghostSeq(h264dp.w, "emitted")
 //@   terminates
 //@   local off int
 //@   local payload []byte
@@ -104,7 +104,7 @@ package rtp
 //@   local nalSize uint16
 //@   assert[call:writeFrame] len(frame.Payload) == int(nalSize) && off + int(nalSize) <= len(payload) && forall(i, 1, int(nalSize), frame.Payload[i] == payload[off+i])
 //@   assert[call:writeFrame] int(nalSize) == int(payload[off-2])<<8 | int(payload[off-1])
-//@   loop 0: modifies h264dp.meta.Sps, h264dp.meta.Pps, h264dp.meta.Width, h264dp.meta.Height, h264dp.meta.FixedFrameRate, h264dp.meta.FrameRate, h264dp.metaReady, h264dp.dtsStep, h264dp.nextDts, ghostSeq(h264dp.w, "emitted")
+//@   loop 0: modifies h264dp.meta.Sps, h264dp.meta.Pps, h264dp.meta.Width, h264dp.meta.Height, h264dp.meta.FixedFrameRate, h264dp.meta.FrameRate, h264dp.metaReady, h264dp.dtsStep, h264dp.nextDts, h264dp.syncClock.extRTPTime, h264dp.syncClock.extOn, ghostSeq(h264dp.w, "emitted")
 //@   loop 0: invariant 1 <= off && off <= len(payload) && h264dp.meta != nil && h264dp.w != nil && h264dp.w == old(h264dp.w)
 //@   loop 0: invariant len(ghostSeq(h264dp.w, "emitted")) >= old(len(ghostSeq(h264dp.w, "emitted")))
 //@   loop 0: decreases len(payload) - off
@@ -128,7 +128,7 @@ package rtp
 //@ func (h264dp *h264Depacketizer) depacketizeFuA(packet *Packet) (err error)
 //@   trusted
 //@   requires h264OK(h264dp) && h264FuInv(h264dp) && videoPacket(packet) && payloadLen(packet) >= 3
-//@   modifies h264dp.fragments, h264dp.fragments[:cap(h264dp.fragments)], h264dp.meta.Sps, h264dp.meta.Pps, h264dp.meta.Width, h264dp.meta.Height, h264dp.meta.FixedFrameRate, h264dp.meta.FrameRate, h264dp.metaReady, h264dp.dtsStep, h264dp.nextDts, ghostSeq(h264dp.w, "emitted")
+//@   modifies h264dp.fragments, h264dp.fragments[:cap(h264dp.fragments)], h264dp.meta.Sps, h264dp.meta.Pps, h264dp.meta.Width, h264dp.meta.Height, h264dp.meta.FixedFrameRate, h264dp.meta.FrameRate, h264dp.metaReady, h264dp.dtsStep, h264dp.nextDts, h264dp.syncClock.extRTPTime, h264dp.syncClock.extOn, ghostSeq(h264dp.w, "emitted")
 //@   ensures h264OK(h264dp) && h264FuInv(h264dp) && h264dp.w == old(h264dp.w) && h264dp.meta == old(h264dp.meta)
 
 // variant 1 (unbounded): a fragment without the end bit never emits; the fragment list follows the automaton exactly
@@ -183,7 +183,7 @@ package rtp
 //@   variant end-complete
 //@   split fuS(packet), len(h264dp.fragments) == 0
 //@   requires fuPre(h264dp, packet) && h264FuInv(h264dp) && fuE(packet) && (fuS(packet) || fuContinues(h264dp, packet))
-//@   modifies h264dp.fragments, h264dp.fragments[:cap(h264dp.fragments)], h264dp.meta.Sps, h264dp.meta.Pps, h264dp.meta.Width, h264dp.meta.Height, h264dp.meta.FixedFrameRate, h264dp.meta.FrameRate, h264dp.metaReady, h264dp.dtsStep, h264dp.nextDts, ghostSeq(h264dp.w, "emitted")
+//@   modifies h264dp.fragments, h264dp.fragments[:cap(h264dp.fragments)], h264dp.meta.Sps, h264dp.meta.Pps, h264dp.meta.Width, h264dp.meta.Height, h264dp.meta.FixedFrameRate, h264dp.meta.FrameRate, h264dp.metaReady, h264dp.dtsStep, h264dp.nextDts, h264dp.syncClock.extRTPTime, h264dp.syncClock.extOn, ghostSeq(h264dp.w, "emitted")
 //@   local frame *codec.Frame
 //@   local frameLen, offset, rangeindex int
 //@   loop 0: modifies
@@ -207,7 +207,7 @@ package rtp
 //@ func (h264dp *h264Depacketizer) depacketizeFuA(packet *Packet) (err error)
 //@   variant end-complete-le2
 //@   requires h264OK4(h264dp) && h264FuInv4(h264dp) && videoPacket(packet) && payloadLen(packet) >= 3 && fuE(packet) && (fuS(packet) || fuContinues(h264dp, packet)) && len(h264dp.fragments) <= 1 && cap(h264dp.fragments) >= 4
-//@   modifies h264dp.fragments, h264dp.fragments[:cap(h264dp.fragments)], h264dp.meta.Sps, h264dp.meta.Pps, h264dp.meta.Width, h264dp.meta.Height, h264dp.meta.FixedFrameRate, h264dp.meta.FrameRate, h264dp.metaReady, h264dp.dtsStep, h264dp.nextDts, ghostSeq(h264dp.w, "emitted")
+//@   modifies h264dp.fragments, h264dp.fragments[:cap(h264dp.fragments)], h264dp.meta.Sps, h264dp.meta.Pps, h264dp.meta.Width, h264dp.meta.Height, h264dp.meta.FixedFrameRate, h264dp.meta.FrameRate, h264dp.metaReady, h264dp.dtsStep, h264dp.nextDts, h264dp.syncClock.extRTPTime, h264dp.syncClock.extOn, ghostSeq(h264dp.w, "emitted")
 //@   local frame *codec.Frame
 //@   loop 0: unroll 3
 //@   loop 1: unroll 3
@@ -237,14 +237,14 @@ package rtp
 // every AU handed to the frame writer is the next size_i bytes of the AU data section, in header order
 //@ func (aacdp *aacDepacketizer) depacketizeFor2ByteAUHeader(packet *Packet) (err error)
 //@   requires aacdp != nil && aacdp.w != nil && aacdp.indexLength == 3 && packet != nil && len(packet.Data) <= 65535 && (packet.Channel == ChannelVideo || packet.Channel == ChannelAudio ==> 0 <= packet.PayloadOffset && packet.PayloadOffset <= len(packet.Data))
-//@   modifies ghostSeq(aacdp.w, "emitted")
+//@   modifies ghostSeq(aacdp.w, "emitted"), aacdp.syncClock.extRTPTime, aacdp.syncClock.extOn
 //@   terminates
 //@   local i int
 //@   local auHeadersCount uint16
 //@   local auHeaders, framesPayload, payload []byte
 //@   local frame *codec.Frame
 //@   local frameSize uint16
-//@   loop 0: modifies ghostSeq(aacdp.w, "emitted")
+//@   loop 0: modifies ghostSeq(aacdp.w, "emitted"), aacdp.syncClock.extRTPTime, aacdp.syncClock.extOn
 //@   loop 0: invariant 0 <= i && i <= int(auHeadersCount) && len(auHeaders) == 2*(int(auHeadersCount) - i) && aacdp.w == old(aacdp.w) && aacdp.w != nil
 //@   loop 0: invariant subslice(framesPayload, payload) && subslice(auHeaders, payload) && sliceOff(auHeaders, payload) == 2 + 2*i
 //@   loop 0: invariant sliceOff(framesPayload, payload) >= 2 + 2*int(auHeadersCount) && sliceOff(framesPayload, payload) + len(framesPayload) == len(payload)
@@ -257,7 +257,7 @@ package rtp
 // entry point used by the demuxer for video-channel packets: any payload (empty, short, unknown type) is contained
 //@ func (h264dp *h264Depacketizer) Depacketize(packet *Packet) (err error)
 //@   requires h264OK(h264dp) && h264FuInv(h264dp) && videoPacket(packet)
-//@   modifies h264dp.fragments, h264dp.fragments[:cap(h264dp.fragments)], h264dp.meta.Sps, h264dp.meta.Pps, h264dp.meta.Width, h264dp.meta.Height, h264dp.meta.FixedFrameRate, h264dp.meta.FrameRate, h264dp.metaReady, h264dp.dtsStep, h264dp.nextDts, ghostSeq(h264dp.w, "emitted")
+//@   modifies h264dp.fragments, h264dp.fragments[:cap(h264dp.fragments)], h264dp.meta.Sps, h264dp.meta.Pps, h264dp.meta.Width, h264dp.meta.Height, h264dp.meta.FixedFrameRate, h264dp.meta.FrameRate, h264dp.metaReady, h264dp.dtsStep, h264dp.nextDts, h264dp.syncClock.extRTPTime, h264dp.syncClock.extOn, ghostSeq(h264dp.w, "emitted")
 //@   split payloadLen(packet) < 3, packet.Data[packet.PayloadOffset]&0x1f < 24, packet.Data[packet.PayloadOffset]&0x1f == 24, packet.Data[packet.PayloadOffset]&0x1f == 28
 //@   ensures h264dp != nil && h264dp.meta != nil && h264dp.w != nil
 //@   ensures h264FragsOK(h264dp)
@@ -273,7 +273,7 @@ package rtp
 
 //@ func (h265dp *h265Depacketizer) writeFrame(rtpTimestamp uint32, frame *codec.Frame) (err error)
 //@   requires h265dp != nil && h265dp.meta != nil && h265dp.w != nil && frame != nil && len(frame.Payload) >= 1
-//@   modifies h265dp.meta.Vps, h265dp.meta.Sps, h265dp.meta.Pps, h265dp.meta.Width, h265dp.meta.Height, h265dp.meta.FixedFrameRate, h265dp.meta.FrameRate, h265dp.metaReady, h265dp.dtsStep, h265dp.nextDts, frame.Pts, frame.Dts, ghostSeq(h265dp.w, "emitted")
+//@   modifies h265dp.meta.Vps, h265dp.meta.Sps, h265dp.meta.Pps, h265dp.meta.Width, h265dp.meta.Height, h265dp.meta.FixedFrameRate, h265dp.meta.FrameRate, h265dp.metaReady, h265dp.dtsStep, h265dp.nextDts, h265dp.syncClock.extRTPTime, h265dp.syncClock.extOn, frame.Pts, frame.Dts, ghostSeq(h265dp.w, "emitted")
 //@   ensures len(ghostSeq(h265dp.w, "emitted")) == old(len(ghostSeq(h265dp.w, "emitted"))) || len(ghostSeq(h265dp.w, "emitted")) == old(len(ghostSeq(h265dp.w, "emitted"))) + 1
 //@   ensures len(ghostSeq(h265dp.w, "emitted")) == old(len(ghostSeq(h265dp.w, "emitted"))) + 1 ==> ghostSeq(h265dp.w, "emitted")[old(len(ghostSeq(h265dp.w, "emitted")))] == frame
 //@   ensures forall(i, 0, old(len(ghostSeq(h265dp.w, "emitted"))), ghostSeq(h265dp.w, "emitted")[i] == old(ghostSeq(h265dp.w, "emitted")[i]))
@@ -281,13 +281,13 @@ package rtp
 
 //@ func (h265dp *h265Depacketizer) depacketizeStap(packet *Packet) (err error)
 //@   requires h265OK(h265dp) && videoPacket(packet) && payloadLen(packet) >= 3
-//@   modifies h265dp.meta.Vps, h265dp.meta.Sps, h265dp.meta.Pps, h265dp.meta.Width, h265dp.meta.Height, h265dp.meta.FixedFrameRate, h265dp.meta.FrameRate, h265dp.metaReady, h265dp.dtsStep, h265dp.nextDts, ghostSeq(h265dp.w, "emitted")
+//@   modifies h265dp.meta.Vps, h265dp.meta.Sps, h265dp.meta.Pps, h265dp.meta.Width, h265dp.meta.Height, h265dp.meta.FixedFrameRate, h265dp.meta.FrameRate, h265dp.metaReady, h265dp.dtsStep, h265dp.nextDts, h265dp.syncClock.extRTPTime, h265dp.syncClock.extOn, ghostSeq(h265dp.w, "emitted")
 //@   terminates
 //@   local off int
 //@   local payload []byte
 //@   local frame *codec.Frame
 //@   local nalSize uint16
-//@   loop 0: modifies h265dp.meta.Vps, h265dp.meta.Sps, h265dp.meta.Pps, h265dp.meta.Width, h265dp.meta.Height, h265dp.meta.FixedFrameRate, h265dp.meta.FrameRate, h265dp.metaReady, h265dp.dtsStep, h265dp.nextDts, ghostSeq(h265dp.w, "emitted")
+//@   loop 0: modifies h265dp.meta.Vps, h265dp.meta.Sps, h265dp.meta.Pps, h265dp.meta.Width, h265dp.meta.Height, h265dp.meta.FixedFrameRate, h265dp.meta.FrameRate, h265dp.metaReady, h265dp.dtsStep, h265dp.nextDts, h265dp.syncClock.extRTPTime, h265dp.syncClock.extOn, ghostSeq(h265dp.w, "emitted")
 //@   loop 0: invariant 2 <= off && off <= len(payload) && h265dp.meta != nil && h265dp.w != nil && h265dp.w == old(h265dp.w)
 //@   loop 0: invariant len(ghostSeq(h265dp.w, "emitted")) >= old(len(ghostSeq(h265dp.w, "emitted")))
 //@   loop 0: decreases len(payload) - off
@@ -298,7 +298,7 @@ package rtp
 //@ func (h265dp *h265Depacketizer) depacketizeFu(packet *Packet) (err error)
 //@   trusted
 //@   requires h265OK(h265dp) && h265FuInv(h265dp) && videoPacket(packet) && payloadLen(packet) >= 3
-//@   modifies h265dp.fragments, h265dp.fragments[:cap(h265dp.fragments)], h265dp.meta.Vps, h265dp.meta.Sps, h265dp.meta.Pps, h265dp.meta.Width, h265dp.meta.Height, h265dp.meta.FixedFrameRate, h265dp.meta.FrameRate, h265dp.metaReady, h265dp.dtsStep, h265dp.nextDts, ghostSeq(h265dp.w, "emitted")
+//@   modifies h265dp.fragments, h265dp.fragments[:cap(h265dp.fragments)], h265dp.meta.Vps, h265dp.meta.Sps, h265dp.meta.Pps, h265dp.meta.Width, h265dp.meta.Height, h265dp.meta.FixedFrameRate, h265dp.meta.FrameRate, h265dp.metaReady, h265dp.dtsStep, h265dp.nextDts, h265dp.syncClock.extRTPTime, h265dp.syncClock.extOn, ghostSeq(h265dp.w, "emitted")
 //@   ensures h265OK(h265dp) && h265FuInv(h265dp) && h265dp.w == old(h265dp.w) && h265dp.meta == old(h265dp.meta)
 
 // a fragment without the end bit never emits; the fragment list follows the automaton exactly (unbounded)
@@ -341,7 +341,7 @@ package rtp
 //@ func (h265dp *h265Depacketizer) depacketizeFu(packet *Packet) (err error)
 //@   variant end-complete
 //@   requires fu5Pre(h265dp, packet) && h265FuInv(h265dp) && fu5E(packet) && !fu5S(packet) && len(h265dp.fragments) > 0 && h265dp.fragments[len(h265dp.fragments)-1].SequenceNumber + 1 == packet.SequenceNumber
-//@   modifies h265dp.fragments, h265dp.fragments[:cap(h265dp.fragments)], h265dp.meta.Vps, h265dp.meta.Sps, h265dp.meta.Pps, h265dp.meta.Width, h265dp.meta.Height, h265dp.meta.FixedFrameRate, h265dp.meta.FrameRate, h265dp.metaReady, h265dp.dtsStep, h265dp.nextDts, ghostSeq(h265dp.w, "emitted")
+//@   modifies h265dp.fragments, h265dp.fragments[:cap(h265dp.fragments)], h265dp.meta.Vps, h265dp.meta.Sps, h265dp.meta.Pps, h265dp.meta.Width, h265dp.meta.Height, h265dp.meta.FixedFrameRate, h265dp.meta.FrameRate, h265dp.metaReady, h265dp.dtsStep, h265dp.nextDts, h265dp.syncClock.extRTPTime, h265dp.syncClock.extOn, ghostSeq(h265dp.w, "emitted")
 //@   local frame *codec.Frame
 //@   local frameLen, offset, rangeindex int
 //@   loop 0: modifies
@@ -361,9 +361,30 @@ package rtp
 
 //@ func (h265dp *h265Depacketizer) Depacketize(packet *Packet) (err error)
 //@   requires h265OK(h265dp) && h265FuInv(h265dp) && videoPacket(packet)
-//@   modifies h265dp.fragments, h265dp.fragments[:cap(h265dp.fragments)], h265dp.meta.Vps, h265dp.meta.Sps, h265dp.meta.Pps, h265dp.meta.Width, h265dp.meta.Height, h265dp.meta.FixedFrameRate, h265dp.meta.FrameRate, h265dp.metaReady, h265dp.dtsStep, h265dp.nextDts, ghostSeq(h265dp.w, "emitted")
+//@   modifies h265dp.fragments, h265dp.fragments[:cap(h265dp.fragments)], h265dp.meta.Vps, h265dp.meta.Sps, h265dp.meta.Pps, h265dp.meta.Width, h265dp.meta.Height, h265dp.meta.FixedFrameRate, h265dp.meta.FrameRate, h265dp.metaReady, h265dp.dtsStep, h265dp.nextDts, h265dp.syncClock.extRTPTime, h265dp.syncClock.extOn, ghostSeq(h265dp.w, "emitted")
 //@   split payloadLen(packet) < 3, (packet.Data[packet.PayloadOffset]>>1)&0x3f == 48, (packet.Data[packet.PayloadOffset]>>1)&0x3f == 49
 //@   ensures h265dp != nil && h265dp.meta != nil && h265dp.w != nil
 //@   ensures h265FragsOK(h265dp)
 //@   ensures h265FuInv(h265dp)
 //@   ensures payloadLen(packet) < 3 ==> len(ghostSeq(h265dp.w, "emitted")) == old(len(ghostSeq(h265dp.w, "emitted")))
+
+// ---- C06: presentation time follows the RTP timestamp -------------------------------------------------------------
+// RTP timestamps are 32-bit and wrap (RFC 3550: differences are taken modulo 2^32). The clock keeps the timestamp of the
+// last packet extended to 64 bits: each new timestamp moves it by the SIGNED modular difference to the last one (slightly
+// backwards for a reordered packet, forwards across a wrap), so consecutive presentation times differ by the RTP-timestamp
+// difference scaled by the clock's time unit, wrap or not; without a wrap the extended value is the timestamp itself
+//@ spec func extNext(sc *SyncClock, rtptime uint32) int64 = iteInt64(sc.extOn, sc.extRTPTime + int64(int32(rtptime - uint32(sc.extRTPTime))), int64(rtptime))
+//@ func (sc *SyncClock) extend(rtptime uint32) (e int64)
+//@   requires sc != nil
+//@   modifies sc.extRTPTime, sc.extOn
+//@   ensures e == old(extNext(sc, rtptime)) && sc.extRTPTime == e && sc.extOn && uint32(e) == rtptime
+//@   ensures old(sc.extOn) ==> e - old(sc.extRTPTime) == int64(int32(rtptime - uint32(old(sc.extRTPTime))))
+//@ func (sc *SyncClock) RelativeNtp(rtptime uint32) (t int64)
+//@   requires sc != nil
+//@   modifies sc.extRTPTime, sc.extOn
+//@   ensures t == int64(float64(old(extNext(sc, rtptime)) - int64(sc.RTPTime)) * sc.RTPTimeUnit)
+//@   ensures sc.extOn && sc.extRTPTime == old(extNext(sc, rtptime))
+//@ func (sc *SyncClock) AbsoluteNtp(rtptime uint32) (t int64)
+//@   requires sc != nil
+//@   modifies sc.extRTPTime, sc.extOn
+//@   ensures t == sc.NTPTime + int64(float64(old(extNext(sc, rtptime)) - int64(sc.RTPTime)) * sc.RTPTimeUnit)
